@@ -106,7 +106,11 @@ func (p *policyRulesMergeContext) merge(policy *PolicyRules) {
 		existing, found := p.identityRules[id.Name]
 
 		if !found {
-			p.identityRules[id.Name] = id
+			// The rule is updated in place below when another policy takes
+			// precedence: merge into a copy, the policy itself is shared by
+			// every token that links it (parsed policies are cached).
+			merged := *id
+			p.identityRules[id.Name] = &merged
 			continue
 		}
 
@@ -124,7 +128,11 @@ func (p *policyRulesMergeContext) merge(policy *PolicyRules) {
 		existing, found := p.identityPrefixRules[id.Name]
 
 		if !found {
-			p.identityPrefixRules[id.Name] = id
+			// The rule is updated in place below when another policy takes
+			// precedence: merge into a copy, the policy itself is shared by
+			// every token that links it (parsed policies are cached).
+			merged := *id
+			p.identityPrefixRules[id.Name] = &merged
 			continue
 		}
 
@@ -224,7 +232,11 @@ func (p *policyRulesMergeContext) merge(policy *PolicyRules) {
 		existing, found := p.serviceRules[sp.Name]
 
 		if !found {
-			p.serviceRules[sp.Name] = sp
+			// The rule is updated in place below when another policy takes
+			// precedence: merge into a copy, the policy itself is shared by
+			// every token that links it (parsed policies are cached).
+			merged := *sp
+			p.serviceRules[sp.Name] = &merged
 			continue
 		}
 
@@ -242,7 +254,11 @@ func (p *policyRulesMergeContext) merge(policy *PolicyRules) {
 		existing, found := p.servicePrefixRules[sp.Name]
 
 		if !found {
-			p.servicePrefixRules[sp.Name] = sp
+			// The rule is updated in place below when another policy takes
+			// precedence: merge into a copy, the policy itself is shared by
+			// every token that links it (parsed policies are cached).
+			merged := *sp
+			p.servicePrefixRules[sp.Name] = &merged
 			continue
 		}
 
